@@ -26,6 +26,18 @@ import AtreeProofs.World.C11Scenario
     world) the container handed back is a live, standalone, unreferenced container with the same
     data and value ID (`DetachedRoot`), the invariant holds, and EVERY later notification from it
     changes no container, no index table and no storage effect (at most its stale closure is dropped).
+  * `mapRemove_key_absent`, `mapSet_key_reoccupied` — the slot hypothesis of
+    `C11.detached_map_child_leaves_parent_unchanged` produced by the detaching map operation.
+  * `detachedRoot_arrInsert / _arrSet / _arrRemove / _mapSet / _mapRemove / _arrGet / _mapGet /
+    _setType` — a detached root stays a detached root under every later operation through a
+    current handle (to any container, itself included) that does not store it.
+  * `detached_arrRemove_writes_only_self`, `detached_arrSet_…`, `detached_mapSet_…`,
+    `detached_mapRemove_…`, `detached_setType_…` — audit S4: a complete operation through the handle
+    of a detached root changes no other container (content, sizes, form), closure or index table,
+    and its storage effects are those of the container-level operation on the root itself.
+  * `detached_root_lifecycle` — reloaded / mutated / disposed of / attached to another parent.
+  * Non-vacuity: runs of the model (`AtreeProofs/World/C11Scenario.lean`), the invariant being
+    established by chaining the operation theorems from the empty world.
 -/
 namespace Atree.C11
 open Atree Gen World
@@ -485,6 +497,28 @@ theorem detached_setType_writes_only_self (D : SlabID → DigestFn 4) (w : World
   have hvid : c.vid = x := (C10W.worldOk'_contOk H x c hc).2
   exact ⟨c, c', hc, h1, h2, h3, h4, by rw [h5, hvid], h6, h7, h8⟩
 
+/-! ### 7. "… an intact, independently stored value … that can be reloaded, mutated, disposed of or
+attached to another parent" -/
+
+/-- What a detached root `x` of a valid world can be used for (the second sentence of C11; the
+    first three items restate `C10W.worldOk'_reopen`, `HandleOk.root`, `C10W.worldOk_forget` for `x`):
+    * RELOADED — after reopening the storage the full invariant holds, `x` is the same container
+      and its (new) handle is current;
+    * MUTATED — its handle is current, so every operation theorem `C10W.worldOk'_*` applies to
+      operations through it (and sections 5, 6 above say what they do not touch);
+    * DISPOSED OF — `World.forget` keeps the invariant and removes exactly what is below `x`;
+    * ATTACHED TO ANOTHER PARENT — `x` is a legal value (`WValOk`) for any container `q` it is not
+      an ancestor of, in any slot its wrapped reference fits. -/
+theorem detached_root_lifecycle (D : SlabID → DigestFn 4) (w : World) (ctr : Nat) (x : SlabID)
+    (H : WorldOk' D w ctr) (hx : DetachedRoot w x) :
+    (WorldOk D w.reopen ctr ∧ w.reopen.cont? x = w.cont? x ∧ HandleOk w.reopen x ∧ DetachedRoot w.reopen x) ∧
+    HandleOk w x ∧
+    (WorldOk' D (World.forget w.fuelOf w x) ctr ∧ ForgetFrame w (World.forget w.fuelOf w x) x) ∧
+    (∀ q lim wr, ¬ Anc w x q → slabIDStorableSize + 2 * wr ≤ lim → WValOk w q lim (.child x wr)) := by
+  obtain ⟨r1, r2, r3⟩ := C10W.worldOk'_reopen D w ctr H
+  exact ⟨⟨r1, r2 x, r3 x hx.2, detachedRoot_of_conts_eq w w.reopen x r2 hx⟩, HandleOk.root x hx.2,
+    C10W.worldOk_forget D w x ctr H hx, fun q lim wr ha hl => ⟨hx.1, hx.2, ha, hl⟩⟩
+
 /-! ### Non-vacuity, run A (`AtreeProofs/World/C11Scenario.lean`, T = 256)
 
 Root array `R`; array `X` INLINED in slot 0 of `R` (one value); `Array.Set R 0 Y` overwrites `X` by
@@ -748,6 +782,28 @@ theorem detached_X_stays_detached :
   have H' := (C10W.worldOk'_arrInsert D _ X 1 _ _ _ _ H hh hv runA7).1
   have hx' := detachedRoot_arrInsert D _ X 1 _ _ _ _ X H hh hv runA7 hx (fun wr h => by cases h)
   exact ⟨H', hx', detached_root_notification_is_noop D _ _ X H' hx'⟩
+
+/-- "Attached to another parent": in run A the detached `X` is a legal value for `Y` (the container
+    that replaced it, inlined in `R`) by `detached_root_lifecycle`; `Array.Insert Y 0 X` is a
+    successful run of the model operation, keeps the invariant, and `X` — inlined again, now in
+    `Y` — has a current handle. -/
+theorem detached_X_reattached :
+    WValOk c6.2.1 Y (maxInlineArr c6.2.1.T) (.child X 0) ∧
+    c6.2.1.arrInsert Y 0 (.child X 0) c6.2.2 = .ok c11 ∧
+    WorldOk' D c11.1 c11.2.ctr ∧ HandleOk c11.1 X ∧
+    (c11.1.cont? Y).map Cont.pays = some [.ref X] ∧ (c11.1.cont? X).map Cont.isInlined = some true ∧
+    (c11.1.cont? R).map Cont.pays = some [.ref Y] ∧
+    AList.find? c11.1.hinfo X = some ⟨Y, none, 117, 0⟩ := by
+  obtain ⟨H, hx⟩ := detached_X_hyps
+  have hv := (detached_root_lifecycle D _ _ X H hx).2.2.2 Y (maxInlineArr c6.2.1.T) 0 not_anc_X_Y (by decide)
+  -- the handle of `Y` is current: it was installed by the overwrite
+  have hY : HandleOk c6.2.1 Y := by
+    obtain ⟨_, _, hset, _, _⟩ := C10W.worldOk'_arrSet D c5.1 R 0 _ c5.2 c6.1 c6.2.1 c6.2.2 okA5 handleR5 valY5 runA6
+    obtain ⟨_, _, _, _, _, _, _, _, _, _, _, hch⟩ := hset
+    exact (hch Y 0 rfl).2.1
+  obtain ⟨h1, _, h3, _, _⟩ := C10W.worldOk'_arrInsert D _ Y 0 _ _ _ _ H hY hv runA11
+  obtain ⟨_, _, _, _, _, _, _, _, hch⟩ := h3
+  exact ⟨hv, runA11, h1, (hch X 0 rfl).2.1, by decide, by decide, by decide, by decide⟩
 
 /-- Run C: `Array.Remove R 0` detaches the inlined map `M`; the hypotheses of
     `removed_child_leaves_parent_unchanged` are met, hence `M` is a detached root in a valid world,
